@@ -24,7 +24,7 @@ TPaths == { "a", "b/c", "/a" }
 \* @type: Set(Str);
 TEndpoints == { "e1", "e2", "e3" }
 \* @type: Set(Seq(Int));
-TTokens == { << >>, << 7, 9 >> }
+TTokens == { << >>, << 0 >> }
 \* @type: Set(Int);
 TMids == { 0, 65535 }
 \* @type: Set(Int);
